@@ -50,7 +50,8 @@ func genClientHeaders(rng *vh.Rng) []string {
 	// a client can also name headers in Connection, which makes every HTTP/1.1 intermediary on the way to the
 	// backend (here: the agent's ReverseProxy) treat them as hop-by-hop and drop them
 	if rng.Chance(15) {
-		lines = append(lines, "Connection: "+rng.Pick([]string{"X-Inverting-Proxy-User-ID", "keep-alive, x-inverting-proxy-user-id", "close", "X-Other, Authorization"}))
+		lines = append(lines, "Connection: "+rng.Pick([]string{"X-Inverting-Proxy-User-ID", "keep-alive, x-inverting-proxy-user-id", "close", "X-Other, Authorization",
+			"X-Inverting-Proxy-User-ID, x-inverting-proxy-user-id", "x-inverting-proxy-user-id,X-Other , X-INVERTING-PROXY-USER-ID,", ",, X-Inverting-Proxy-User-ID ,"}))
 	}
 	if rng.Chance(10) {
 		// several Connection lines, the identity header named in a later one (the first must not be "close": the parser drops Connection then)
